@@ -28,7 +28,8 @@ def run_case(case):
     enc, errors = case['encoding'], case.get('errors', 'strict')
     if case['transport'] == 'pty' and enc and enc.replace('_', '-').startswith(('utf-16', 'utf-32', 'utf-8-sig')):
         case['transport'] = 'fd'      # spawn() encodes argv with the instance encoding: only ASCII-compatible ones can start a program
-    ses = S.Session(case['transport'], enc, errors, logs=case.get('logs', ('logfile', 'logfile_read', 'logfile_send')))
+    ses = S.Session(case['transport'], enc, errors, logs=case.get('logs', ('logfile', 'logfile_read', 'logfile_send')),
+                    logfile_by_ctor=(len(case['ops']) % 2 == 1))       # every other case hands `logfile` to the constructor
     p = ses.p
     delivered, rets, tags = [], [], {k: [] for k in ses.logs}
     sent_payload = b''
@@ -153,7 +154,7 @@ def oracle_c07(case, res):
 def expected_peer(case):
     enc = case['encoding']
     c = consts()
-    encoder = codecs.getincrementalencoder(enc)('strict') if enc else None
+    encoder = codecs.getincrementalencoder(enc)(case.get('errors', 'strict')) if enc else None
     out = b''
 
     def e(v):
@@ -371,6 +372,14 @@ def gen_sends(ctx, logs_variants):
                 want, _ = expected_peer(case)
                 case['expect_peer_len'] = len(want)
                 cases.append(case)
+    # codec_errors is the error policy of sending too: text the encoding cannot express goes out as the policy says
+    for tr in TRANSPORTS:
+        for enc, errors, text in (('ascii', 'replace', 'caf\u00e9 \u20ac'), ('latin-1', 'ignore', 'a\u20acb'), ('ascii', 'backslashreplace', 'x\u00e9'),
+                                  ('utf-8', 'surrogateescape', 'raw\udcff\udc80 bytes'), ('ascii', 'xmlcharrefreplace', '\u20ac5')):
+            case = dict(transport=tr, encoding=enc, errors=errors, ops=[('S', text), ('L', text), ('W', [text, 'plain'])], logs=('logfile_send',), wl_form='list')
+            want, _ = expected_peer(case)
+            case['expect_peer_len'] = len(want)
+            cases.append(case)
     # bytes mode, text and bytes elements mixed, given as a one-shot iterable
     for tr in TRANSPORTS:
         for form in ('gen', 'iter', 'map'):
